@@ -871,6 +871,11 @@ func (w *world) poll(i int, o Op) {
 	default:
 		expect, named = "authorization_pending", []string{"authorization_pending"}
 	}
+	if !grey && t1.Sub(t0) > time.Second {
+		// the library bounds the storage call of a poll with its own 4 s deadline (then slow_down): a request that
+		// was stalled this long (machine load) proves nothing about named errors or completeness
+		expect, grey, mustTokens, named = "grey:slow-request", true, false, nil
+	}
 	got := gotErr
 	if gotTokens {
 		got = "tokens"
